@@ -156,27 +156,35 @@ def fromModule (s : State) (a : Actor) (d : Denom) (x : Nat) : Option State :=
 def sameLock (a : Actor) (d : Denom) (dur : Nat) (l : Lock) : Bool :=
   l.owner == a && l.denom == d && l.duration == dur && !l.isUnlocking
 
+/-- `lockCoins.AmountOf(feeDenom).Add(fee)` -/
+def lockCost (p : Params) (d : Denom) (amt : Nat) : Nat := (if d = p.feeDenom then amt else 0) + p.fee
+
+/-- `ChargeFeesFromPayer`: the fee leaves the payer (to x/txfees, burned) -/
+def chargeFee (p : Params) (s : State) (a : Actor) : State :=
+  { s with bal := updBal s.bal a p.feeDenom (s.bal a p.feeDenom - p.fee) }
+
+/-- `AddTokensToLockByID` after the bank send: lock object and accumulation store -/
+def addToLock (s : State) (l : Lock) (amt : Nat) : State :=
+  { s with locks := setLock s.locks { l with amount := l.amount + amt },
+           acc := accAdd s.acc l.denom l.duration amt }
+
+/-- `CreateLock` after the bank send -/
+def createLock (s : State) (a : Actor) (d : Denom) (amt dur : Nat) : State :=
+  { s with locks := s.locks ++ [⟨s.lastId + 1, a, dur, none, d, amt, none⟩],
+           acc := accAdd s.acc d dur amt, lastId := s.lastId + 1 }
+
 def lockTokens (p : Params) (s : State) (a : Actor) (d : Denom) (amt dur : Nat) : State × Out :=
   -- ValidateBasic: Duration <= 0, not exactly one coin, non-positive amount
   if dur = 0 ∨ amt = 0 then (s, .err .invalid) else
   if dur < p.minDur then (s, .err .belowMin) else
   -- ChargeLockFee
-  let cost := (if d = p.feeDenom then amt else 0) + p.fee
-  if s.bal a p.feeDenom < cost then (s, .err .feeFunds) else
-  let s1 := { s with bal := updBal s.bal a p.feeDenom (s.bal a p.feeDenom - p.fee) }
-  match toModule s1 a d amt with
+  if s.bal a p.feeDenom < lockCost p d amt then (s, .err .feeFunds) else
+  match toModule (chargeFee p s a) a d amt with
   | none => (s, .err .funds)
   | some s2 =>
     match s.locks.find? (sameLock a d dur) with
-    | some l =>
-      -- AddTokensToLockByID
-      ({ s2 with locks := setLock s2.locks { l with amount := l.amount + amt },
-                 acc := accAdd s2.acc d l.duration amt }, .ok l.id)
-    | none =>
-      -- CreateLock
-      let id := s.lastId + 1
-      ({ s2 with locks := s2.locks ++ [⟨id, a, dur, none, d, amt, none⟩],
-                 acc := accAdd s2.acc d dur amt, lastId := id }, .ok id)
+    | some l => (addToLock s2 l amt, .ok l.id)
+    | none => (createLock s2 a d amt dur, .ok (s.lastId + 1))
 
 /-! ### MsgBeginUnlocking -/
 
@@ -202,6 +210,17 @@ def coinsInvalid (c : Option (Denom × Nat)) : Bool :=
   | none => false
   | some (_, x) => x == 0
 
+/-- `beginUnlock` of the whole lock: end time = block time + duration -/
+def startUnlock (s : State) (l : Lock) : State :=
+  { s with locks := setLock s.locks { l with endTime := some (s.now + l.duration), startedAt := some s.now } }
+
+/-- `splitLock` + `beginUnlock` of the split part: the old lock keeps the rest, a new lock (next id)
+    takes `x` and starts unlocking -/
+def splitUnlock (s : State) (l : Lock) (x : Nat) : State :=
+  { s with locks := setLock s.locks { l with amount := l.amount - x } ++
+                      [⟨s.lastId + 1, l.owner, l.duration, some (s.now + l.duration), l.denom, x, some s.now⟩],
+           lastId := s.lastId + 1 }
+
 def beginUnlocking (s : State) (a : Actor) (id : Nat) (c : Option (Denom × Nat)) : State × Out :=
   if id = 0 ∨ coinsInvalid c then (s, .err .invalid) else
   match findLock s.locks id with
@@ -211,18 +230,15 @@ def beginUnlocking (s : State) (a : Actor) (id : Nat) (c : Option (Denom × Nat)
     -- Keeper.beginUnlock
     if exceeds c l then (s, .err .exceeds) else
     if l.isUnlocking then (s, .err .alreadyUnlocking) else
-    if isPartial c l then
-      -- splitLock: old lock keeps the rest, a new lock (next id) takes `coins` and starts unlocking
-      let x := reqAmt c
-      let nid := s.lastId + 1
-      let rest := { l with amount := l.amount - x }
-      let split : Lock := ⟨nid, l.owner, l.duration, some (s.now + l.duration), l.denom, x, some s.now⟩
-      ({ s with locks := setLock s.locks rest ++ [split], lastId := nid }, .ok nid)
-    else
-      ({ s with locks := setLock s.locks { l with endTime := some (s.now + l.duration), startedAt := some s.now } },
-       .ok l.id)
+    if isPartial c l then (splitUnlock s l (reqAmt c), .ok (s.lastId + 1))
+    else (startUnlock s l, .ok l.id)
 
 /-! ### MsgExtendLockup -/
+
+/-- `ExtendLockup`'s state change: accumulation moved from the old to the new duration -/
+def extendTo (s : State) (l : Lock) (dur : Nat) : State :=
+  { s with locks := setLock s.locks { l with duration := dur },
+           acc := accAdd (accAdd s.acc l.denom l.duration (-(l.amount : Int))) l.denom dur l.amount }
 
 def extendLockup (s : State) (a : Actor) (id : Nat) (dur : Nat) : State × Out :=
   if id = 0 ∨ dur = 0 then (s, .err .invalid) else
@@ -232,10 +248,19 @@ def extendLockup (s : State) (a : Actor) (id : Nat) (dur : Nat) : State × Out :
     if l.owner ≠ a then (s, .err .notOwner) else
     if l.isUnlocking then (s, .err .isUnlocking) else
     if dur ≤ l.duration then (s, .err .durNotGreater) else
-    ({ s with locks := setLock s.locks { l with duration := dur },
-              acc := accAdd (accAdd s.acc l.denom l.duration (-(l.amount : Int))) l.denom dur l.amount }, .ok 0)
+    (extendTo s l dur, .ok 0)
 
 /-! ### MsgForceUnlock -/
+
+/-- `unlockMaturedLockInternalLogic` after the bank send: lock deleted, accumulation decreased -/
+def removeLock (s : State) (l : Lock) : State :=
+  { s with locks := delLock s.locks l.id, acc := accAdd s.acc l.denom l.duration (-(l.amount : Int)) }
+
+/-- partial force unlock after the bank send: `splitLock(force)` gives the split part the next id,
+    which is (begun and) unlocked at once -/
+def shrinkLock (s : State) (l : Lock) (x : Nat) : State :=
+  { s with locks := setLock s.locks { l with amount := l.amount - x }, lastId := s.lastId + 1,
+           acc := accAdd s.acc l.denom l.duration (-(x : Int)) }
 
 def forceUnlock (p : Params) (s : State) (a : Actor) (id : Nat) (c : Option (Denom × Nat)) : State × Out :=
   if id = 0 ∨ coinsInvalid c then (s, .err .invalid) else
@@ -247,19 +272,13 @@ def forceUnlock (p : Params) (s : State) (a : Actor) (id : Nat) (c : Option (Den
     -- PartialForceUnlock
     if exceeds c l then (s, .err .exceeds) else
     if isPartial c l then
-      -- splitLock(force): the split part gets the next id, is (begun and) unlocked at once
-      let x := reqAmt c
-      match fromModule s l.owner l.denom x with
+      match fromModule s l.owner l.denom (reqAmt c) with
       | none => (s, .err .modFunds)
-      | some s1 =>
-        ({ s1 with locks := setLock s1.locks { l with amount := l.amount - x }, lastId := s.lastId + 1,
-                   acc := accAdd s1.acc l.denom l.duration (-(x : Int)) }, .ok 0)
+      | some s1 => (shrinkLock s1 l (reqAmt c), .ok 0)
     else
       match fromModule s l.owner l.denom l.amount with
       | none => (s, .err .modFunds)
-      | some s1 =>
-        ({ s1 with locks := delLock s1.locks l.id,
-                   acc := accAdd s1.acc l.denom l.duration (-(l.amount : Int)) }, .ok 0)
+      | some s1 => (removeLock s1 l, .ok 0)
 
 /-! ### EndBlocker -/
 
@@ -278,9 +297,7 @@ def unlockMatured (s : State) (id : Nat) : Option State :=
     if !matured s.now l then none else
     match fromModule s l.owner l.denom l.amount with
     | none => none
-    | some s1 =>
-      some { s1 with locks := delLock s1.locks l.id,
-                     acc := accAdd s1.acc l.denom l.duration (-(l.amount : Int)) }
+    | some s1 => some (removeLock s1 l)
 
 /-- `unlockFromIterator` over the ids collected up front -/
 def withdrawAll : List Nat → State → Option State
